@@ -47,7 +47,7 @@ ASSUMPTIONS = [
 DECIDING = ["to_dict", "circuit_from_dict", "circuitset_from_dict", "save_circuit", "load_circuit",
             "save_circuitset", "load_circuitset", "collect_defs", "deserialize_expr",
             "roundtrip-eq", "roundtrip-free-symbols", "roundtrip-matrices"]
-BUDGET = {"quick": (4, 22, 700), "thorough": (16, 200, 100000)}
+BUDGET = {"quick": (4, 22, 130), "thorough": (16, 200, 100000)}
 CASE_TIMEOUT = {"quick": 15, "thorough": 30}
 
 K3 = "K3-expression-text-name-ambiguity"
@@ -947,25 +947,25 @@ def install(mon, reach):
 
     _G, _C = G, C
     mon.max_depth = 12  # to_dict recurses through the wrapper chain; serialize_expr sits below it
-    reach.watch(S._circuit_to_dict, "to_dict[Circuit]")
-    reach.watch(S._circuitset_to_dict, "to_dict[list]")
-    reach.watch(S._gate_operation_to_dict, "to_dict[GateOperation]")
-    reach.watch(S._basic_gate_to_dict, "to_dict[MatrixFactoryGate]")
-    reach.watch(S._custom_gate_def_to_dict, "to_dict[CustomGateDefinition]")
-    reach.watch(S._controlled_gate_to_dict, "to_dict[ControlledGate]")
-    reach.watch(S._dagger_gate_to_dict, "to_dict[Dagger]")
-    reach.watch(S._exponential_gate_to_dict, "to_dict[Exponential]")
-    reach.watch(S._power_gate_to_dict, "to_dict[Power]")
+    reach.watch(getattr(S, "_circuit_to_dict", None), "to_dict[Circuit]")
+    reach.watch(getattr(S, "_circuitset_to_dict", None), "to_dict[list]")
+    reach.watch(getattr(S, "_gate_operation_to_dict", None), "to_dict[GateOperation]")
+    reach.watch(getattr(S, "_basic_gate_to_dict", None), "to_dict[MatrixFactoryGate]")
+    reach.watch(getattr(S, "_custom_gate_def_to_dict", None), "to_dict[CustomGateDefinition]")
+    reach.watch(getattr(S, "_controlled_gate_to_dict", None), "to_dict[ControlledGate]")
+    reach.watch(getattr(S, "_dagger_gate_to_dict", None), "to_dict[Dagger]")
+    reach.watch(getattr(S, "_exponential_gate_to_dict", None), "to_dict[Exponential]")
+    reach.watch(getattr(S, "_power_gate_to_dict", None), "to_dict[Power]")
     reach.watch(S.circuit_from_dict, "circuit_from_dict")
-    reach.watch(S._gate_from_dict, "_gate_from_dict")
-    reach.watch(S._builtin_gate_from_dict, "_builtin_gate_from_dict")
-    reach.watch(S._special_gate_from_dict, "_special_gate_from_dict", markers={
+    reach.watch(getattr(S, "_gate_from_dict", None), "_gate_from_dict")
+    reach.watch(getattr(S, "_builtin_gate_from_dict", None), "_builtin_gate_from_dict")
+    reach.watch(getattr(S, "_special_gate_from_dict", None), "_special_gate_from_dict", markers={
         "controlled": r"return _gates\.ControlledGate", "dagger": r"return _gates\.Dagger",
         "exponential": r"return _gates\.Exponential", "power": r"return _gates\.Power"})
-    reach.watch(S._custom_gate_instance_from_dict, "_custom_gate_instance_from_dict")
+    reach.watch(getattr(S, "_custom_gate_instance_from_dict", None), "_custom_gate_instance_from_dict")
     reach.watch(S.custom_gate_def_from_dict, "custom_gate_def_from_dict")
     reach.watch(S.deserialize_expr, "deserialize_expr")
-    reach.watch(S._make_symbols_map, "_make_symbols_map", markers={"indexed": r"symbols_map\.setdefault"})
+    reach.watch(getattr(S, "_make_symbols_map", None), "_make_symbols_map", markers={"indexed": r"symbols_map\.setdefault"})
     reach.watch(S.circuitset_from_dict, "circuitset_from_dict")
     reach.watch(S.save_circuit, "save_circuit")
     reach.watch(S.load_circuit, "load_circuit")
@@ -973,8 +973,8 @@ def install(mon, reach):
     reach.watch(S.load_circuitset, "load_circuitset")
     reach.watch(C.Circuit.collect_custom_gate_definitions, "collect_custom_gate_definitions",
                 markers={"conflict": r"raise ValueError"})
-    reach.watch(G.MatrixFactoryGate.__eq__, "MatrixFactoryGate.__eq__")
-    reach.watch(G._are_matrix_elements_equal, "_are_matrix_elements_equal")
+    reach.watch(getattr(G.MatrixFactoryGate, "__eq__", None), "MatrixFactoryGate.__eq__")
+    reach.watch(getattr(G, "_are_matrix_elements_equal", None), "_are_matrix_elements_equal")
     reach.watch(B.builtin_gate_by_name, "builtin_gate_by_name")
 
     mon.hook_func(S, "serialize_expr", post=_post_serialize_expr, name="serialize_expr")
